@@ -35,6 +35,8 @@ type Scenario struct {
 	// KeyAlgo (harness handler): the key-pair algorithm of its agent keys, 0 = the package default, otherwise
 	// key.PublicKeyAlgo + 1 (RSA2048, RSA4096, P-256, P-384, P-521, Ed25519)
 	KeyAlgo int `json:",omitempty"`
+	// SameKeyID (harness handler): the requests of one agent key share one KeyId and name different CA keys
+	SameKeyID bool `json:",omitempty"`
 	// NilParam: Run is called without request parameters (a nil pointer)
 	NilParam bool `json:",omitempty"`
 }
@@ -123,7 +125,7 @@ func runOnce(s Scenario, f Fault) (res runResult, infra error) {
 		}
 		h = w
 	} else {
-		fh := &vh.FakeHandler{ID: "h0", Accept: true, Log: hlog, Agent: agent.NewClient(conn), NKeys: s.NKeys, NReqs: s.NReqs, KeyAlgo: s.KeyAlgo,
+		fh := &vh.FakeHandler{ID: "h0", Accept: true, Log: hlog, Agent: agent.NewClient(conn), NKeys: s.NKeys, NReqs: s.NReqs, KeyAlgo: s.KeyAlgo, SameKeyID: s.SameKeyID,
 			Refresh: func(k *agent.Key) bool { return strings.Contains(k.Comment, "verif.h0-stale") }}
 		if f.Where == "handler" && f.Index == 0 {
 			fh.PanicIn = f.Kind
@@ -228,8 +230,12 @@ func exec(s Scenario) (vh.Outcome, error) {
 		for k := 0; k < max(s.NKeys, 1); k++ {
 			for r := 0; r < max(s.NReqs, 1); r++ {
 				want := fmt.Sprintf("verif h0 key %d request %d", k, r)
-				if dry.caCalls[i].Req.KeyId != want {
-					return out, vh.Errf("%s: signing request %d is %q, expected %q (order)", desc, i, dry.caCalls[i].Req.KeyId, want)
+				got := dry.caCalls[i].Req.KeyId
+				if s.SameKeyID {
+					want, got = fmt.Sprintf("verif h0 key %d / verif-slot-%d", k, r), got+" / "+dry.caCalls[i].Req.GetKeyMeta().GetIdentifier()
+				}
+				if got != want {
+					return out, vh.Errf("%s: signing request %d is %q, expected %q (order)", desc, i, got, want)
 				}
 				i++
 			}
@@ -345,7 +351,7 @@ func exec(s Scenario) (vh.Outcome, error) {
 	return out, nil
 }
 
-const rule = "scenarios: the real regular handler, or a harness handler producing 1..3 agent keys x 1..3 requests through the repository's AgentKey (key pairs of the default algorithm, RSA-2048, P-256 / 384 / 521 or Ed25519), CA returning 1..3 certificates per request (validity window as requested / without expiry / until 2^63 s / stamped by a clock 90 s ahead), 0..2 stale labelled certificates in the agent, optionally a rejecting handler in front (rejecting with an error of any kind, incl. the unknown kind and kinds that have no name), run under context.Background, a cancellable context (what cmd/gensign passes) or a deadline context (each case is journaled first: a fault that kills the process instead of coming back as an error is reported with its scenario). Per scenario a fault-free run fixes the number of agent operations n and CA calls m; then EVERY (operation index 0..n-1) x {failure reply, connection closed}, every CA call x {error (plain, or typed with the unknown / an unnamed kind), panic, error handed back together with certificates, certificates issued for another key} and a panic in each of Name / Authenticate / Generate / CSRs / AddCertsToAgent of the authenticating handler, plus a panic in Authenticate of the handler in front of it, plus - for the harness handler - every way Generate can fail (typed error with / without handler name, wrapped, no keys returned as nil or as an empty list) is executed in a fresh world (exhaustive per scenario; scenarios random). Oracle: challenge fault => AllAuthFailed; agent fault before the first CA call => a typed generation error; Generate failing or returning no key => the CSR-generation kind and no CA call; CA error => SignerSignErr and no further CA call; list / remove / add-certificate fault => AgentOpCertErr; any panic => Panic; always a *gensign.Error, the process survives; fault-free: nil, CA calls = all requests in order, every returned certificate in the agent; always: certificates added are a subset of those the CA returned. Non-trivial: at least one injected fault was reached and judged."
+const rule = "scenarios: the real regular handler, or a harness handler producing 1..3 agent keys x 1..3 requests through the repository's AgentKey (in a third of the scenarios the requests of one key share one KeyId and name different CA keys; key pairs of the default algorithm, RSA-2048, P-256 / 384 / 521 or Ed25519), CA returning 1..3 certificates per request (validity window as requested / without expiry / until 2^63 s / stamped by a clock 90 s ahead), 0..2 stale labelled certificates in the agent, optionally a rejecting handler in front (rejecting with an error of any kind, incl. the unknown kind and kinds that have no name), run under context.Background, a cancellable context (what cmd/gensign passes) or a deadline context (each case is journaled first: a fault that kills the process instead of coming back as an error is reported with its scenario). Per scenario a fault-free run fixes the number of agent operations n and CA calls m; then EVERY (operation index 0..n-1) x {failure reply, connection closed}, every CA call x {error (plain, or typed with the unknown / an unnamed kind), panic, error handed back together with certificates, certificates issued for another key} and a panic in each of Name / Authenticate / Generate / CSRs / AddCertsToAgent of the authenticating handler, plus a panic in Authenticate of the handler in front of it, plus - for the harness handler - every way Generate can fail (typed error with / without handler name, wrapped, no keys returned as nil or as an empty list) is executed in a fresh world (exhaustive per scenario; scenarios random). Oracle: challenge fault => AllAuthFailed; agent fault before the first CA call => a typed generation error; Generate failing or returning no key => the CSR-generation kind and no CA call; CA error => SignerSignErr and no further CA call; list / remove / add-certificate fault => AgentOpCertErr; any panic => Panic; always a *gensign.Error, the process survives; fault-free: nil, CA calls = all requests in order, every returned certificate in the agent; always: certificates added are a subset of those the CA returned. Non-trivial: at least one injected fault was reached and judged."
 
 func TestC04Faults(t *testing.T) {
 	vh.Run(t, vh.Spec[Scenario]{Property: "C04", Name: "TestC04Faults", Rule: rule, Journal: true,
@@ -357,6 +363,7 @@ func TestC04Faults(t *testing.T) {
 				s.NKeys = rapid.IntRange(1, 3).Draw(t, "nkeys")
 				s.NReqs = rapid.IntRange(1, 3).Draw(t, "nreqs")
 				s.KeyAlgo = rapid.SampledFrom([]int{0, 0, 1, 3, 4, 5, 6}).Draw(t, "keyAlgo")
+				s.SameKeyID = rapid.IntRange(0, 2).Draw(t, "sameKeyID") == 1
 			}
 			return s
 		}, Exec: exec})
